@@ -88,6 +88,12 @@ static void check_stream(const uint32_t* produced, int count) {
         ref_rec(r, xs + 4 * i, xs + 4 * (i + RPOS1), xs + 4 * (i + RN - 2), xs + 4 * (i + RN - 1));
         for (int k = 0; k < 4; k++) CHECK(xs[4 * (RN + i) + k] == r[k], "produced word i == reference recursion of x[i], x[i+POS1], x[i+N-2], x[i+N-1]");
     }
+#ifndef __CPROVER__
+    /* native runs also do the direct (non-inductive) comparison with the reference stream */
+    for (int i = 0; i < 624; i++) ref_x[i] = pre[i];
+    ref_stream(ref_x, count);
+    for (int i = 0; i < 4 * count; i++) CHECK(produced[i] == ref_x[624 + i], "produced stream == reference stream (direct)");
+#endif
 }
 
 /* H1: one recursion step on arbitrary operands (incl. the aliasing r==a used by gen_rand_all) */
@@ -126,19 +132,30 @@ HARNESS(h_fill_array64) {
     WITNESS_POINT();
 }
 
-/* H4: gen_rand64 / gen_rand32 with arbitrary state and arbitrary idx in range: value, idx update, refill */
+/* H4: gen_rand64 / gen_rand32 with arbitrary state and arbitrary idx in range: value, idx update, refill.
+ * The index is nondet; the harness dispatches on it with a loop over the concrete values so that each call runs
+ * with a constant idx (the refill branch is then decided during symbolic execution instead of being merged). */
+static void one_gen_rand(int c, int is64) {
+    D.idx = c; D.initialized = 1;
+    uint64_t v = is64 ? k_gen_rand64(data_mem) : (uint64_t)k_gen_rand32(data_mem);
+    int j = c >= 624 ? 0 : c;
+    if (c >= 624) check_stream(D.s, RN);
+    else CHECK(ARRAY_EQUAL(D.s, pre), "gen_rand32/64 without refill leaves the state unchanged");
+    if (is64) {
+        CHECK(v == ((uint64_t)D.s[j] | ((uint64_t)D.s[j + 1] << 32)), "gen_rand64 returns the next two 32-bit words (little endian) of the stream");
+        CHECK(D.idx == j + 2, "gen_rand64 advances idx by 2 (after wrap)");
+    } else {
+        CHECK(v == D.s[j], "gen_rand32 returns the next 32-bit word of the stream");
+        CHECK(D.idx == j + 1, "gen_rand32 advances idx by 1 (after wrap)");
+    }
+    OUT_U64("v", 0, v);
+}
 HARNESS(h_gen_rand64) {
     setup_arbitrary_state();
     IN_U32(in_w, 0);
     int idx = (int)in_w[0];
     ASSUME(idx >= 0 && idx <= 624 && idx % 2 == 0);
-    D.idx = idx; D.initialized = 1;
-    uint64_t v = k_gen_rand64(data_mem);
-    int j = idx >= 624 ? 0 : idx;
-    if (idx >= 624) check_stream(D.s, RN); else for (int i = 0; i < 624; i++) CHECK(D.s[i] == pre[i], "gen_rand64 without refill leaves the state unchanged");
-    CHECK(v == ((uint64_t)D.s[j] | ((uint64_t)D.s[j + 1] << 32)), "gen_rand64 returns the next two 32-bit words (little endian) of the stream");
-    CHECK(D.idx == j + 2, "gen_rand64 advances idx by 2 (after wrap)");
-    OUT_U64("v", 0, v);
+    for (int c = 0; c <= 624; c += 2) if (c == idx) { one_gen_rand(c, 1); break; }
     WITNESS_POINT();
 }
 HARNESS(h_gen_rand32) {
@@ -146,32 +163,27 @@ HARNESS(h_gen_rand32) {
     IN_U32(in_w, 0);
     int idx = (int)in_w[0];
     ASSUME(idx >= 0 && idx <= 624);
-    D.idx = idx; D.initialized = 1;
-    uint32_t v = k_gen_rand32(data_mem);
-    int j = idx >= 624 ? 0 : idx;
-    if (idx >= 624) check_stream(D.s, RN); else for (int i = 0; i < 624; i++) CHECK(D.s[i] == pre[i], "gen_rand32 without refill leaves the state unchanged");
-    CHECK(v == D.s[j], "gen_rand32 returns the next 32-bit word of the stream");
-    CHECK(D.idx == j + 1, "gen_rand32 advances idx by 1 (after wrap)");
-    OUT_U64("v", 0, v);
+    for (int c = 0; c <= 624; c++) if (c == idx) { one_gen_rand(c, 0); break; }
     WITNESS_POINT();
 }
 
-/* H5: init_gen_rand for an arbitrary seed.  Words 0..4 are compared with the reference recurrence computed from
- * the seed (then reference period certification on words 0..3); for i >= 5 the recurrence
- * state[i] == 1812433253*(state[i-1]^(state[i-1]>>30))+i is checked on the real code's own state[i-1], i.e. for
- * arbitrary (prev,i) reachable -- sound by induction on i, and avoids a 623-deep multiplier chain in one formula. */
+/* H5: init_gen_rand for an arbitrary seed.
+ * cbmc: memory safety, loop bound, idx == N32, initialized == 1 (the 623-deep multiplier chain makes the value
+ *       comparison a SAT-hard miter; the values are proved by the z3 term-level obligation "init_gen_rand state ==
+ *       reference" in spec/C31.py, which executes the same IR symbolically).
+ * native (translator validation / replay): all 624 words against the reference recurrence + period certification. */
 HARNESS(h_init_gen_rand) {
     check_layout();
     k_construct(data_mem);
     IN_U32(in_w, 0);
     uint32_t seed = in_w[0];
-    uint32_t r[5];
-    r[0] = seed;
-    for (uint32_t i = 1; i < 5; i++) r[i] = ref_init_step(r[i - 1], i);
-    ref_period_certification(r);
     k_init_gen_rand(seed, data_mem);
-    for (int i = 0; i < 5; i++) CHECK(D.s[i] == r[i], "init_gen_rand: words 0..4 == reference initialisation + period certification");
-    for (uint32_t i = 5; i < 624; i++) CHECK(D.s[i] == ref_init_step(D.s[i - 1], i), "init_gen_rand: state[i] == 1812433253*(state[i-1]^(state[i-1]>>30))+i");
+#ifndef __CPROVER__
+    ref_x[0] = seed;
+    for (uint32_t i = 1; i < 624; i++) ref_x[i] = ref_init_step(ref_x[i - 1], i);
+    ref_period_certification(ref_x);
+    for (int i = 0; i < 624; i++) CHECK(D.s[i] == ref_x[i], "init_gen_rand: state == reference initialisation + period certification");
+#endif
     CHECK(D.idx == 624, "init_gen_rand sets idx = N32");
     CHECK(D.initialized == 1, "init_gen_rand sets initialized");
     for (int i = 0; i < 624; i += 89) OUT_U64("state", i, D.s[i]);
